@@ -237,6 +237,7 @@ func CmdCheck(args []string) int {
 	}
 	kf := loadKnown(*verif)
 	violations := 0
+	printed := map[string]bool{}
 	var knownLines []string
 	selftest := map[string]interface{}{}
 	for _, r := range oc.Failed {
@@ -255,6 +256,11 @@ func CmdCheck(args []string) int {
 			continue
 		}
 		violations++
+		if printed[r.Obl.Name] {
+			// the same obligation failing on another path: counted, reported once
+			continue
+		}
+		printed[r.Obl.Name] = true
 		path, confirmed := WriteReplay(*verif, *repo, id, pd, r, oc.Engine)
 		suffix := ""
 		if !confirmed {
@@ -321,8 +327,21 @@ func writeEvidence(verifDir string, pd *PropertyDef, tier string, seed int, oc *
 	assumptions := append([]string{}, pd.Assumptions...)
 	if oc != nil {
 		n, d := countObls(oc)
-		cov["obligations"] = n
+		// obligations that fail exactly as recorded in known_findings.json (open genuine defects) are
+		// not part of what this run claims as proved: they are counted separately
+		kf := loadKnown(verifDir)
+		nKnown := 0
+		for _, r := range oc.Results {
+			if !r.Obl.Cover && !r.Discharged() && matchKnown(kf, pd.ID, r.Obl.Name) != nil {
+				nKnown++
+			}
+		}
+		cov["obligations"] = n - nKnown
 		cov["discharged"] = d
+		if nKnown > 0 {
+			cov["obligations_failing_as_open_known_findings"] = nKnown
+			cov["known_findings"] = known
+		}
 		bySolver := map[string]int{}
 		byKind := map[string]int{}
 		var solverS float64
